@@ -184,6 +184,9 @@ const (
 type Options struct {
 	Letters     []Letter
 	NoFwdRefs   bool
+	// NoCheckFn builds the RIB with rib.DisableRIBCheckFn(): no resolvability / referrer checks at all, every valid
+	// operation is installed at once. Only the fold oracle (C01) applies.
+	NoCheckFn bool
 	Checks      Checks
 	Hook        HookConfig
 	ObsVerdicts bool // differential oracle: delete verdict positivity per key
@@ -218,7 +221,10 @@ func New(o *Options) func() mc.Instance {
 		if o.NoFwdRefs {
 			opts = append(opts, rib.DisableForwardReferences())
 		}
-		if AllInvariants {
+		if o.NoCheckFn {
+			opts = append(opts, rib.DisableRIBCheckFn())
+		}
+		if AllInvariants && !o.NoCheckFn {
 			// Every RIB-tier search evaluates every state invariant, whatever property it was written for: contents =
 			// fold of the acknowledgements (C01), resolvability / held operations (C02), protection counters = referrers
 			// (C03). A defect that breaks one of them in a state that only another property's search reaches is then
